@@ -136,10 +136,15 @@ type c11chain struct {
 	failed    bool
 	hasPrelim bool
 	nReplays  int
-	truth     *state.IdentityStateDB // identity state to compare a full replay with (default: the observed node's)
+	// while set, oracle failures of the served-diff replay are reported under this signature (crash sweep)
+	sigOverride, sigNote string
+	truth                *state.IdentityStateDB // identity state to compare a full replay with (default: the observed node's)
 }
 
 func (x *c11chain) fail(sig, detail string) {
+	if x.sigOverride != "" && strings.HasPrefix(sig, "C11:") && sig != "C11:harness-replayer" {
+		sig, detail = x.sigOverride, x.sigNote+detail
+	}
 	x.failed = true
 	x.c.Fail(sig, detail, x.cs)
 }
@@ -761,9 +766,9 @@ func c11runFsync(c *hx.Ctx, cs c11case) error {
 	sS := chainfx.NewSender(x.w)
 	var canon []*types.Block
 	sActual := map[uint64]*state.IdentityStateDiff{}
-	for k := 1; k <= 5; k++ {
-		if k == 3 {
-			if _, err := sS.Send(S, victims[1], &types.Transaction{Type: types.KillTx}); err != nil {
+	for k := 1; k <= 6; k++ {
+		if k == 3 || k == 4 { // two consecutive blocks that change the identity state
+			if _, err := sS.Send(S, victims[4-k], &types.Transaction{Type: types.KillTx}); err != nil {
 				return scn("kill-tx-refused", err.Error())
 			}
 		}
@@ -782,7 +787,8 @@ func c11runFsync(c *hx.Ctx, cs c11case) error {
 		sActual[p.Block.Height()] = d
 		canon = append(canon, p.Block)
 	}
-	if !sActual[cH+2].Empty() || sActual[cH+3].Empty() {
+	top := cH + 6
+	if !sActual[cH+2].Empty() || sActual[cH+3].Empty() || sActual[cH+4].Empty() {
 		return scn("canonical-diffs-not-as-intended", "")
 	}
 	// fork switch of D: reset to the common block + B(c+1)
@@ -798,7 +804,8 @@ func c11runFsync(c *hx.Ctx, cs c11case) error {
 		x.fail("C11:history-broken", err.Error())
 		return nil
 	}
-	// fast sync of c+2..c+5 with what S serves, through the real applier
+	pre := copyMemDB(x.n.DB) // D's database right before the fast sync (for the crash / resume sweep)
+	// fast sync of c+2..c+6 with what S serves, through the real applier
 	fs := protocol.VerifC11NewFastSync(x.n.Chain, x.n.App, x.n.Cfg)
 	from, err := fs.PreConsuming(x.n.Chain.Head)
 	if err != nil || from != cH+2 {
@@ -807,7 +814,7 @@ func c11runFsync(c *hx.Ctx, cs c11case) error {
 	var hdrs []*types.Header
 	var certs []*types.BlockCert
 	var diffs []*state.IdentityStateDiff
-	for hh := from; hh <= cH+5; hh++ {
+	for hh := from; hh <= top; hh++ {
 		hdr, diff, err := protocol.VerifC11Wire(S.Chain.GetBlockHeaderByHeight(hh), S.Chain.GetIdentityDiff(hh))
 		if err != nil {
 			return scn("fixture", err.Error())
@@ -821,7 +828,7 @@ func c11runFsync(c *hx.Ctx, cs c11case) error {
 	if ph := x.n.Chain.PreliminaryHead; ph == nil || ph.Hash() != S.Chain.Head.Hash() {
 		return scn("preliminary-head-not-reached", "")
 	}
-	for hh := from; hh <= cH+5; hh++ {
+	for hh := from; hh <= top; hh++ {
 		x.actual[hh] = sActual[hh]
 		c.Line(fmt.Sprintf("fsync %d %s", hh, diffStrRaw(sActual[hh])), "stored "+diffStr(x.n.Chain.GetIdentityDiff(hh)))
 		if sActual[hh].Empty() && x.abandoned[hh] {
@@ -829,12 +836,354 @@ func c11runFsync(c *hx.Ctx, cs c11case) error {
 		}
 	}
 	x.truth = S.App.IdentityState
-	for hh := cH + 1; hh <= cH+5; hh++ {
+	for hh := cH + 1; hh <= top; hh++ {
 		x.served(hh)
 	}
 	x.nReplays = 1 // no hostile stream here: the canonical contents of the fast-synced heights live on S
 	x.replayLine()
+	if x.failed {
+		return nil
+	}
+	c11crashSweep(x, S, pre, cH+2, top, sActual)
+	if x.failed {
+		return nil
+	}
+	// the end of the fast sync on D: the snapshot S exports is imported into D's state — a state D has lived on and read
+	// from — and D switches to it (the body of fastSync.postConsuming); then the contents are compared through accessors
+	var snap bytes.Buffer
+	if _, err := S.App.State.WriteSnapshot2(top, &snap); err != nil {
+		return scn("fixture", err.Error())
+	}
+	addrs := unionAddrs(stateAddrs(S.App.State, 300), stateAddrs(x.n.App.State, 300), x.w.Addrs)
+	_ = accessorDump(x.n.App.State, addrs) // D reads its own (pre-switch) state, incl. accounts that exist only there
+	if err := fs.Finish(snap.Bytes()); err != nil {
+		x.fail("C11:fast-sync-refused-honest-blocks", "snapshot import / switch at the end of the fast sync: "+err.Error())
+		return nil
+	}
+	c.Rep.Evaluations++
+	if x.n.Chain.Head.Hash() != S.Chain.Head.Hash() || x.n.App.State.Root() != S.App.State.Root() || x.n.App.IdentityState.Root() != S.App.IdentityState.Root() {
+		x.fail("C11:import-accepted-different-content", "after the fast sync completed, head / state root / identity root of the synced node differ from the serving node's")
+		return nil
+	}
+	if d := firstDiff(accessorDump(S.App.State, addrs), accessorDump(x.n.App.State, addrs)); d != "" {
+		x.fail("C11:import-accessors-differ", fmt.Sprintf("after the fast sync completed (snapshot of height %d imported, roots equal) the synced node reads other contents than the serving node: %s", top, d))
+		return nil
+	}
+	if got, want := identityContents(x.n.App.IdentityState), identityContents(S.App.IdentityState); got != want {
+		x.fail("C11:replay-contents-differ", "identity state after the switch differs from the serving node's")
+		return nil
+	}
+	c.Hit("fsync:completed-and-switched")
+	// ... and the synced node goes on with the chain
+	x.truth = nil
+	chainfx.Advance(20 * time.Second)
+	if p, err := S.Propose(); err == nil {
+		if err := S.Add(p.Block); err == nil {
+			cb, _ := chainfx.CloneBlock(p.Block)
+			if err := x.add(cb); err != nil {
+				x.fail("C11:synced-node-rejects-next-block", err.Error())
+				return nil
+			}
+			x.replayLine()
+		}
+	}
 	return nil
+}
+
+// c11crashSweep: D dies after the k-th write event of the fast sync (preConsuming + applyDeferredBlocks), for every k
+// (sampled in the quick tier); it restarts over what reached the database and resumes the fast sync like
+// fastSync.preConsuming does (LoadPreliminary(PreliminaryHead.Height())).  The resumed sync must complete, end with the
+// canonical identity state, and what the node serves afterwards must replay.
+func c11crashSweep(x *c11chain, S *chainfx.Node, pre dbm.DB, from, top uint64, sActual map[uint64]*state.IdentityStateDiff) {
+	c := x.c
+	serve := func(lo uint64) (hdrs []*types.Header, certs []*types.BlockCert, diffs []*state.IdentityStateDiff) {
+		for hh := lo; hh <= top; hh++ {
+			hdr, diff, _ := protocol.VerifC11Wire(S.Chain.GetBlockHeaderByHeight(hh), S.Chain.GetIdentityDiff(hh))
+			hdrs, certs, diffs = append(hdrs, hdr), append(certs, nil), append(diffs, diff)
+		}
+		return
+	}
+	attempt := func(budget int) (events int, inner dbm.DB, ok bool) {
+		inner = copyMemDB(pre)
+		cdb := newCrashDB(inner)
+		n1, err := chainfx.Start(cdb, x.w.Keys[0], x.w.Cfg(), false)
+		if err != nil {
+			return 0, nil, false
+		}
+		cdb.events, cdb.budget = 0, budget
+		fs1 := protocol.VerifC11NewFastSync(n1.Chain, n1.App, n1.Cfg)
+		if lo, err := fs1.PreConsuming(n1.Chain.Head); err == nil {
+			fs1.Apply(serve(lo))
+		}
+		return cdb.events, inner, true
+	}
+	total, _, ok := attempt(-1)
+	if !ok || total == 0 {
+		c.Hit("crash-sweep:skipped")
+		return
+	}
+	stepK := 1
+	if c.Tier != "thorough" && total > 24 {
+		stepK = (total + 23) / 24
+	}
+	saveN := x.n
+	defer func() { x.n = saveN }()
+	for k := c.Rng.Intn(stepK); k < total; k += stepK {
+		_, inner, ok := attempt(k)
+		if !ok {
+			continue
+		}
+		c.Rep.Evaluations++
+		fail := func(detail string) {
+			rp := x.cs
+			x.failed = true
+			c.Fail("C11:fast-sync-resume-fails", fmt.Sprintf("crash after write event %d of %d of the fast sync of heights %d..%d: %s", k, total, from, top, detail), rp)
+		}
+		n2, err := chainfx.Start(inner, x.w.Keys[0], x.w.Cfg(), false)
+		if err != nil {
+			fail("the node does not start again: " + err.Error())
+			return
+		}
+		fs2 := protocol.VerifC11NewFastSync(n2.Chain, n2.App, n2.Cfg)
+		lo, err := fs2.PreConsuming(n2.Chain.Head)
+		if err != nil {
+			fail("preConsuming on restart: " + err.Error())
+			return
+		}
+		if ph := n2.Chain.PreliminaryHead; ph != nil && ph.Height() >= lo-1 {
+			if got := fs2.PreliminaryIdentityState().Root(); got != S.Chain.GetBlockHeaderByHeight(lo-1).IdentityRoot() {
+				fail(fmt.Sprintf("the resumed preliminary identity state (tree version %d) is not the one of the preliminary head %d", fs2.PreliminaryIdentityState().VerifC11TreeVersion(), lo-1))
+				return
+			}
+		}
+		if lo <= top {
+			if at, err := fs2.Apply(serve(lo)); err != nil {
+				fail(fmt.Sprintf("the resumed sync (from %d) is refused at height %d: %v", lo, at, err))
+				return
+			}
+		}
+		if ph := n2.Chain.PreliminaryHead; ph == nil || ph.Hash() != S.Chain.Head.Hash() {
+			fail("the resumed sync does not reach the canonical head")
+			return
+		}
+		pis := fs2.PreliminaryIdentityState()
+		if pis.Root() != S.Chain.Head.IdentityRoot() || identityContents(pis) != identityContents(S.App.IdentityState) {
+			fail("the identity state after the resumed sync differs from the canonical one")
+			return
+		}
+		// what this node serves now
+		x.n = n2
+		x.sigOverride = "C11:served-diff-wrong-after-crash-in-fast-sync"
+		x.sigNote = fmt.Sprintf("crash after write event %d of %d of the fast sync of heights %d..%d, restart, resumed sync completed; then: ", k, total, from, top)
+		ans := x.replayAll(false)
+		x.sigOverride, x.sigNote = "", ""
+		x.n = saveN
+		if !strings.HasPrefix(ans, "ok") {
+			return
+		}
+		c.Hit("crash-sweep:resumed-ok")
+	}
+}
+
+/* ---------------------------------------------------------------------------------------------------------------
+   accessor-level comparison (what the node reads: typed getters and typed iterations, through the live-object caches)
+   ------------------------------------------------------------------------------------------------------------- */
+
+func bigStr(b *big.Int) string {
+	if b == nil {
+		return "nil"
+	}
+	return b.String()
+}
+
+// stateAddrs: every address the typed iterations of s yield (capped), sorted.
+func stateAddrs(s *state.StateDB, limit int) []common.Address {
+	seen := map[common.Address]bool{}
+	s.IterateOverAccounts(func(a common.Address, _ state.Account) {
+		if len(seen) < limit {
+			seen[a] = true
+		}
+	})
+	s.IterateOverIdentities(func(a common.Address, _ state.Identity) {
+		if len(seen) < limit {
+			seen[a] = true
+		}
+	})
+	out := make([]common.Address, 0, len(seen))
+	for a := range seen {
+		out = append(out, a)
+	}
+	sort.Slice(out, func(i, j int) bool { return bytes.Compare(out[i][:], out[j][:]) < 0 })
+	return out
+}
+
+func unionAddrs(ls ...[]common.Address) []common.Address {
+	seen := map[common.Address]bool{}
+	var out []common.Address
+	for _, l := range ls {
+		for _, a := range l {
+			if !seen[a] {
+				seen[a] = true
+				out = append(out, a)
+			}
+		}
+	}
+	sort.Slice(out, func(i, j int) bool { return bytes.Compare(out[i][:], out[j][:]) < 0 })
+	return out
+}
+
+var c11ckeys = func() [][]byte {
+	var ks [][]byte
+	for b := 0; b < 4; b++ {
+		ks = append(ks, []byte{byte(b)})
+		for b2 := 0; b2 < 2; b2++ {
+			ks = append(ks, []byte{byte(b), byte(b2)})
+		}
+	}
+	return ks
+}()
+
+// accessorDump reads the state the way the node does: every typed getter for the given addresses, the global getters
+// and the typed iterations.  One labelled line per observation.
+func accessorDump(s *state.StateDB, addrs []common.Address) []string {
+	var out []string
+	add := func(label string, v interface{}) { out = append(out, fmt.Sprintf("%s=%v", label, v)) }
+	add("Epoch", s.Epoch())
+	add("GodAddress", s.GodAddress().Hex())
+	add("LastSnapshot", s.LastSnapshot())
+	add("NextValidationTime", s.NextValidationTime().Unix())
+	add("ValidationPeriod", s.ValidationPeriod())
+	add("FeePerGas", bigStr(s.FeePerGas()))
+	add("EpochBlock", s.EpochBlock())
+	add("PrevEpochBlocks", s.PrevEpochBlocks())
+	add("FlipWordsSeed", hx.Hex(func() []byte { x := s.FlipWordsSeed(); return x[:] }()))
+	add("GodAddressInvites", s.GodAddressInvites())
+	add("VrfProposerThreshold", s.VrfProposerThreshold())
+	add("EmptyBlocksCount", s.EmptyBlocksCount())
+	add("BlocksCntWithoutCeremonialTxs", s.BlocksCntWithoutCeremonialTxs())
+	add("DiscriminationStakeThreshold", bigStr(s.DiscriminationStakeThreshold()))
+	add("ShardsNum", s.ShardsNum())
+	add("StatusSwitchAddresses", s.StatusSwitchAddresses())
+	add("DiscriminationStatusSwitchAddresses", s.DiscriminationStatusSwitchAddresses())
+	add("DelayedOfflinePenalties", s.DelayedOfflinePenalties())
+	for _, d := range s.Delegations() {
+		add("Delegation", fmt.Sprintf("%s->%s", d.Delegator.Hex(), d.Delegatee.Hex()))
+	}
+	for i, a := range addrs {
+		p := a.Hex() + "."
+		add(p+"AccountExists", s.AccountExists(a))
+		add(p+"GetBalance", bigStr(s.GetBalance(a)))
+		add(p+"GetNonce", s.GetNonce(a))
+		add(p+"GetEpoch", s.GetEpoch(a))
+		add(p+"GetIdentityState", s.GetIdentityState(a))
+		add(p+"GetStakeBalance", bigStr(s.GetStakeBalance(a)))
+		id := s.GetIdentity(a)
+		ib, _ := id.ToBytes()
+		add(p+"GetIdentity", hx.Hex(ib))
+		add(p+"Delegatee", fmt.Sprint(s.Delegatee(a) != nil))
+		add(p+"GetInvites", s.GetInvites(a))
+		add(p+"GetRequiredFlips", s.GetRequiredFlips(a))
+		add(p+"GetPenaltySeconds", s.GetPenaltySeconds(a))
+		add(p+"ShardId", s.ShardId(a))
+		if ch := s.GetCodeHash(a); ch != nil {
+			add(p+"GetCodeHash", ch.Hex())
+			add(p+"GetContractStake", bigStr(s.GetContractStake(a)))
+		}
+		if i < 48 {
+			for _, k := range c11ckeys {
+				if v := s.GetContractValue(a, k); v != nil {
+					add(p+"GetContractValue."+hx.Hex(k), hx.Hex(v))
+				}
+			}
+			s.IterateContractStore(a, nil, nil, func(k, v []byte) bool {
+				add(p+"IterateContractStore."+hx.Hex(k), hx.Hex(v))
+				return false
+			})
+		}
+	}
+	var accs, ids []string
+	s.IterateOverAccounts(func(a common.Address, acc state.Account) {
+		b, _ := acc.ToBytes()
+		accs = append(accs, a.Hex()+":"+hx.Hex(b))
+	})
+	s.IterateOverIdentities(func(a common.Address, id state.Identity) {
+		b, _ := id.ToBytes()
+		ids = append(ids, a.Hex()+":"+hx.Hex(b))
+	})
+	sort.Strings(accs)
+	sort.Strings(ids)
+	add("IterateOverAccounts.count", len(accs))
+	add("IterateOverIdentities.count", len(ids))
+	if len(accs) <= 400 {
+		out = append(out, accs...)
+		out = append(out, ids...)
+	}
+	s.IterateBurntCoins(func(h uint64, v state.BurntCoins) { add(fmt.Sprintf("BurntCoins.%d", h), len(v.Items)) })
+	return out
+}
+
+func firstDiff(a, b []string) string {
+	for i := 0; i < len(a) || i < len(b); i++ {
+		x, y := "<missing>", "<missing>"
+		if i < len(a) {
+			x = a[i]
+		}
+		if i < len(b) {
+			y = b[i]
+		}
+		if x != y {
+			if len(x) > 200 {
+				x = x[:200]
+			}
+			if len(y) > 200 {
+				y = y[:200]
+			}
+			return fmt.Sprintf("exporting state: %s | importing state: %s", x, y)
+		}
+	}
+	return ""
+}
+
+// usedImport: the archive is imported into a StateDB that has a committed state of its own and has already been read
+// from (as on a real node: fastSync.loadValidators reads GodAddress() before the switch), with the node's calls
+// (RecoverSnapshot2 + CommitSnapshot); then the contents are compared through the accessors, before any further commit.
+func usedImport(c *hx.Ctx, o *snapOrigin, data []byte, replay c11case, what string) {
+	if o.src == nil {
+		return
+	}
+	r := rand.New(rand.NewSource(int64(len(o.data))*7919 + int64(o.height)))
+	dst, _, err := genState(r, 9, 2)
+	if err != nil {
+		panic(err)
+	}
+	addrs := unionAddrs(o.addrs, stateAddrs(dst, 100))
+	_ = accessorDump(dst, addrs) // the importing node reads its own state first
+	var ierr error
+	func() {
+		defer func() {
+			if rec := recover(); rec != nil {
+				ierr = fmt.Errorf("panic: %v", rec)
+			}
+		}()
+		ierr = dst.RecoverSnapshot2(o.height, o.root, bytes.NewReader(data))
+		if ierr == nil {
+			dst.CommitSnapshot(o.height, nil)
+		}
+	}()
+	c.Rep.Evaluations++
+	if ierr != nil {
+		c.Hit("used-import:refused")
+		return // the fresh-database import of the same bytes carries the verdict about refusals
+	}
+	c.Hit("used-import:accepted")
+	if dst.Root() != o.root {
+		c.Fail("C11:import-accepted-different-content", what+": import into a used StateDB: root differs from the advertised one", replay)
+	}
+	want := accessorDump(o.src, addrs)
+	got := accessorDump(dst, addrs)
+	if d := firstDiff(want, got); d != "" {
+		c.Fail("C11:import-accessors-differ", fmt.Sprintf("%s: import into a StateDB the node has already read from (root equal: %v): %s", what, dst.Root() == o.root, d), replay)
+	}
 }
 
 /* ---------------------------------------------------------------------------------------------------------------
@@ -976,6 +1325,8 @@ type snapOrigin struct {
 	dump   []kv
 	probes [][]byte // keys looked up after an import: every original key and some absent neighbours
 	gets   []string
+	src    *state.StateDB   // the exporting state (accessor-level reference)
+	addrs  []common.Address // addresses the accessor comparison reads
 }
 
 type importRes struct {
@@ -1076,7 +1427,7 @@ func exportState(c *hx.Ctx, s *state.StateDB, height uint64, cs c11case, what st
 	if err != nil {
 		return nil, err
 	}
-	o := &snapOrigin{height: height, root: root, data: buf.Bytes()}
+	o := &snapOrigin{height: height, root: root, data: buf.Bytes(), src: s, addrs: stateAddrs(s, 150)}
 	if root != s.Root() {
 		c.Fail("C11:export-root-differs", fmt.Sprintf("%s: WriteSnapshot2 returned root %s, the state's root is %s", what, root.Hex(), s.Root().Hex()), cs)
 	}
@@ -1225,6 +1576,9 @@ func oneCorruption(c *hx.Ctx, o *snapOrigin, cs c11case, corr, what string) {
 	corruptLines(c, o, d, res.class)
 	c.Hit("import:" + strings.SplitN(corr, ":", 2)[0] + ":" + res.class)
 	c.Rep.Evaluations++
+	if strings.HasPrefix(res.class, "ok") && (cs.Corr != "" || c.Rng.Intn(8) == 0) && len(o.nodes) < 2000 {
+		usedImport(c, o, data, rp, what+" corruption "+corr)
+	}
 	if bytes.Equal(data, o.data) {
 		return
 	}
@@ -1319,6 +1673,7 @@ func roundTrip(c *hx.Ctx, o *snapOrigin, cs c11case, what string) {
 		c.Fail("C11:clean-import-refused", fmt.Sprintf("%s: importing the unmodified export gives %s %s", what, res.class, res.detail), cs)
 	}
 	c.Hit("import:clean:" + res.class)
+	usedImport(c, o, o.data, cs, what+" clean round trip")
 }
 
 func addrOf(i int) common.Address {
